@@ -133,7 +133,7 @@ def run(rep, tier, seed, replay):
         m = re.search(r"error(\[E\d+\])?[^\n]*", u.output)
         if m:
             first = re.sub(r"u\d+", "uN", m.group(0))[:160]
-        rep.violation({"check": check, "shape": u.doc["shape"], "kind": u.doc["kind"]},
+        rep.violation({"check": check, "shape": u.doc["shape"], "kind": u.doc["kind"], "keep": bool(u.cfg.get("keep"))},
                       {"document": u.doc["name"], "files": u.doc["files"] if len(str(u.doc["files"])) < 4000 else list(u.doc["files"]),
                        "config": cfg_name(u.cfg), "status": u.status, "diagnostic": u.output[-1500:], "first_error": first})
     # conformance of the boxing model: a graph predicted to have an unbroken by-value cycle must indeed fail to compile
